@@ -37,6 +37,7 @@ def run(prog, rep):
     rep.part(montecarlo, prog, rep)
     rep.part(rejection, prog, rep)
     rep.part(window, prog, rep)
+    rep.part(window_low, prog, rep)
     rep.part(sample_size, prog, rep)
     rep.part(cache, prog, rep)
     rep.part(cache_key, prog, rep)
@@ -524,6 +525,26 @@ def window(prog, rep):
               "larger one are cut off), and for a conditioning value in the tail no grid value passes the absolute threshold at all")
 
 
+def window_low(prog, rep):
+    """The lower end of the sampling window: candidates are drawn uniformly on [lo, hi]; a positive constant lo means that no value <= 0 is ever
+    returned, whatever the conditional distribution (Normal, von Mises, a Weibull with negative location)."""
+    q = f"{JM}.MultivariateModel.conditional_sample"
+    fn = prog.func(q)
+    b = builder(prog, fn, inline=False)
+    lows = []
+    for st in cfg_of(fn).all_stmts():
+        for n in ast.walk(st) if isinstance(st, (ast.Assign, ast.Expr, ast.Return)) else []:
+            if isinstance(n, ast.Call) and isinstance(n.func, ast.Attribute) and n.func.attr == "uniform" and len(n.args) >= 2:
+                lows.append((st, b.term(n.args[0], st)))
+    if not lows:
+        raise AnalysisError(f"{q}: no uniform(lo, hi, ...) candidate draw found")
+    consts = [(st, t) for st, t in lows if t[0] == "const" and isinstance(t[1], (int, float)) and t[1] >= 0]
+    rep.check(not consts, "C16.window", f"{q}:lower-bound", fn.where(consts[0][0]) if consts else fn.where(),
+              "the lower end of the window follows the conditional distribution",
+              f"the candidates are drawn on [{consts[0][1][1] if consts else ''}, x_max]: a constant, non-negative lower end - no value <= 0 is ever returned although the "
+              "conditional variable may have negative support")
+
+
 def cache(prog, rep):
     """TransformedModel keeps a Monte-Carlo sample for empirical_cdf (a deliberate memo, see C19): it describes the model only until the model changes."""
     ci = prog.cls(TM)
@@ -709,7 +730,8 @@ def montecarlo(prog, rep):
         q = f"{MM}.{name}"
         fn = prog.func(q)
         rep.analysed(fn)
-        b = builder(prog, fn, inline=False)
+        from vstat.terms import ConvTransparent
+        b = ConvTransparent(builder(prog, fn, inline=False))     # asarray_chkfinite(x): the values are x's
         cfg = cfg_of(fn)
         first = [p_ for p_ in fn.positional_params if p_ != "self"][0]
         ok = False
@@ -764,8 +786,9 @@ def montecarlo(prog, rep):
         q = f"{JM}.GlobalHierarchicalModel.{name}"
         fn = prog.func(q)
         rep.analysed(fn)
-        b = builder(prog, fn, inline=False, guarded=True)
-        pcs_ = path_conditions(prog, fn, b)
+        from vstat.terms import ConvTransparent
+        b = ConvTransparent(builder(prog, fn, inline=False, guarded=True))
+        pcs_ = path_conditions(prog, fn, b._b)
         rets = [s for s in cfg_of(fn).all_stmts() if isinstance(s, ast.Return)]
         first = [p_ for p_ in fn.positional_params if p_ != "self"][0]
         d = ("sub", dists, P("dim"))
